@@ -93,6 +93,15 @@ def add_loose(s, t):
         s.tensors.append(t)
 
 
+def normalize_sizes(s, tn):
+    """after a fusion a pool label can carry a fused dimension: give such bonds a fresh harness name so that the pool
+    labels keep their fixed sizes (otherwise a later add of a pool tensor is a user-level size clash)"""
+    for ix in list(tn.ind_map):
+        if ix in SIZES and tn.ind_size(ix) != SIZES[ix]:
+            s.counter += 1
+            tn.reindex_({ix: f"fz{s.counter}"})
+
+
 def pick(seq, k):
     seq = list(seq)
     if not seq:
@@ -656,10 +665,16 @@ def op_squeeze(s, a):
         for t in tn.tensor_map.values():
             if 1 in t.shape and len(owners_of(s, t)) >= 2:
                 s.shared_touch = True
+        if fuse and inplace and any(len(owners_of(s, t)) >= 2 for t in tn.tensor_map.values()):
+            fuse = False  # same user-level size clash as fuse_multibonds on shared tensors
         if inplace:
             tn.squeeze_(fuse=fuse)
+            if fuse:
+                normalize_sizes(s, tn)
         else:
             s.nets.append(tn.squeeze(fuse=fuse))
+            if fuse:
+                normalize_sizes(s, s.nets[-1])
             if id(tn) in s.rep:
                 s.rep.add(id(s.nets[-1]))
 
@@ -698,7 +713,12 @@ def op_fuse(s, a):
     tn = pick_net(s, ni)
     s.nmut += 1
     if what == 0:
+        # fusing changes the dimension of a surviving label: only sound when no tensor of this network is also viewed by
+        # another network in which that label still connects to unfused tensors (user-level size clash otherwise)
+        if any(len(owners_of(s, t)) >= 2 for t in tn.tensor_map.values()):
+            raise Reject("fuse_multibonds on tensors shared with another network")
         tn.fuse_multibonds_()
+        normalize_sizes(s, tn)
     else:
         t = any_tensor(s, ni)
         if len(set(t.inds)) < 2 or tensor_has_repeat(t):
